@@ -422,7 +422,20 @@ def real_grid_corners(res, tier):
         nonorth_ = not g["spec"].get("options", {}).get("orthogonal", True)
         tol_x = 2e-5 * (40.0 / g["spec"].get("options", {}).get("finecontour_Nfine", 40)) ** 2 if nonorth_ else 1e-6
         if worst_x > tol_x:
-            res.violation("corners-x:" + name + ("" if g["spec"].get("options", {}).get("orthogonal", True) else "-nonorth"),
+            # where are the corners that disagree? (a known weakness sits within two rows of the secondary X-point, on its own separatrix)
+            nearsec = False
+            if dn and nonorth_ and t["ixseps1"] != t["ixseps2"]:
+                xb = max(t["ixseps1"], t["ixseps2"]) - 1
+                rows = set()
+                for jj in (t["jyseps1_1"], t["jyseps2_1"], t["jyseps1_2"], t["jyseps2_2"]):
+                    for dj in (-1, 0, 1, 2, 3):
+                        rows.add(arr(max(0, min(t["ny"] - 1, jj + dj))))
+                allbad = []
+                for (a_, b_) in (("_lower_right_corners", "_corners"), ("_upper_right_corners", "_upper_left_corners")):
+                    d = np.hypot(v["Rxy" + a_][:-1, :] - v["Rxy" + b_][1:, :], v["Zxy" + a_][:-1, :] - v["Zxy" + b_][1:, :])
+                    allbad += [(int(i), int(j)) for i, j in np.argwhere(d > tol_x)]
+                nearsec = bool(allbad) and all(i == xb and j in rows for i, j in allbad)
+            res.violation(("corners-x-near-secondary-xpoint:" if nearsec else "corners-x:") + name + ("" if g["spec"].get("options", {}).get("orthogonal", True) else "-nonorth"),
                           "cells (%d, %d) and (%d, %d) are x-neighbours but the corner they share (%s of the first) differs by %.3g m between them"
                           % (where_x[0], where_x[1], where_x[0] + 1, where_x[1], where_x[2], worst_x), {"spec": g["spec"]})
         res.case(key=("grid", name, myg), nontrivial=True, sample={"op": "corner coincidence across decoded adjacency", "grid": name,
@@ -458,6 +471,26 @@ def real_grid_corners(res, tier):
                             res.violation("real-%s-order:%s" % (nm, name), "%s: %s decreases from cell (%d,%d) to its poloidal successor (%d,%d) away from the wrap" % (
                                 name, nm, x, a, x, b), {"spec": g["spec"]})
                             break
+        # theta (and its staggered copies) advances by dy from one array row to the next, boundary cells included; the only break is between the
+        # boundary cells of the inner upper target and those of the outer upper target of a double null
+        for nm in ("theta", "theta_xlow", "theta_ylow"):
+            if nm not in v or "dy" not in v:
+                continue
+            th_, dy_ = v[nm], v["dy"]
+            step = th_[:, 1:] - th_[:, :-1]
+            if nm == "theta_ylow":
+                want_ = dy_[:, :-1]
+            else:
+                want_ = 0.5 * (dy_[:, 1:] + dy_[:, :-1])
+            with np.errstate(all="ignore"):
+                badrows = sorted(set(int(j) for j in np.argwhere(np.isfinite(step) & (np.abs(step - want_) > 1e-9))[:, 1]))
+            allowed = {t["ny_inner"] + 2 * myg - 1} if dn else set()
+            extra_rows = [j for j in badrows if j not in allowed]
+            if extra_rows:
+                j = extra_rows[0]
+                res.violation("real-theta-step:" + name, "%s: %s[., %d] - %s[., %d] = %.6f where dy = %.6f (rows that may break: %s)" % (
+                    name, nm, j + 1, nm, j, float(step[0, j]), float(want_[0, j]), sorted(allowed)), {"spec": g["spec"]})
+                break
         if worst > 1e-6:
             res.violation("corners:" + name, "corners of cells adjacent by the decoded topology do not coincide (max %.3g m)" % worst,
                           {"spec": g["spec"]})
